@@ -884,10 +884,22 @@ def exec_history(hist, workdir, collect=None, light=False):
                       return r_
 
                   _so.minimize = _spy
+                  singular_trial = False
                   try:
-                      call("optimize_cov_and_noise_", gp.optimize_cov_and_noise_, refit=True, sigma_min=op["sigma_min"])
+                      try:
+                          _quiet(gp.optimize_cov_and_noise_, refit=True, sigma_min=op["sigma_min"])
+                      except np.linalg.LinAlgError:
+                          # the optimiser tried hyper-parameters for which the training matrix is
+                          # not numerically positive definite (exact constraints, a vanishing
+                          # covariance scale): the property promises nothing there
+                          singular_trial = True
+                      except Exception:
+                          call("optimize_cov_and_noise_", gp.optimize_cov_and_noise_, refit=True, sigma_min=op["sigma_min"])
                   finally:
                       _so.minimize = _orig_min
+                  if singular_trial:
+                      stats["optimiser_hit_singular_trial_point_history_ends"] += 1
+                      break
                   if not seen_res:
                       stats["internal_state_unavailable"] += 1
                       continue
@@ -916,7 +928,11 @@ def exec_history(hist, workdir, collect=None, light=False):
               have_amol = getattr(gp, "alpha_mol_", None) is not None
               am = np.asarray(gp.alpha_mol_) if have_amol else R["amol"]
               tol = 1e-12 * R["condK"] * max(np.abs(R["amol"]).max(), 1e-300) + 1e-300
-              if am.shape != R["amol"].shape or np.abs(am - R["amol"]).max() > max(tol, 1e-9 * np.abs(R["amol"]).max()):
+              if R["condK"] > 1e13:
+                  # cond(K) beyond what double precision resolves: two correct solvers differ
+                  # by any amount in the forward error; only the backward error below is judged
+                  stats["fits_with_numerically_singular_matrix_forward_error_not_judged"] += 1
+              elif am.shape != R["amol"].shape or np.abs(am - R["amol"]).max() > max(tol, 1e-9 * np.abs(R["amol"]).max()):
                   V("fit:alpha_mol:mismatch", "step %d: max diff %.3g tol %.3g condK %.3g" % (step, np.abs(am - R["amol"]).max() if am.shape == R["amol"].shape else -1, tol, R["condK"]))
               # backward error of K alpha_mol = y with the reference K and y: well conditioned
               # whatever cond(K) is (the forward comparison above loosens with cond(K))
